@@ -412,7 +412,7 @@ Proof.
     + intros Hn. tt. eapply arith_notnull; eauto.
     + intros W. tt. destruct (arith_int_ty o (type_of s e1) (type_of s e2) ltac:(assumption) ltac:(assumption)) as [k Ek]. rewrite Ek in *. eapply arith_typed; eauto.
   - (* DIV *)
-    ev2 e1 e2. destruct (IHe1 _ eq_refl) as [N1 T1]. destruct (IHe2 _ eq_refl) as [N2 T2]. cbn [nullable type_of well_typed].
+    ev2 e1 e2. destruct (bad_unsigned (type_of s e1) va || bad_unsigned (type_of s e2) vb); [discriminate|]. destruct (IHe1 _ eq_refl) as [N1 T1]. destruct (IHe2 _ eq_refl) as [N2 T2]. cbn [nullable type_of well_typed].
     split; [discriminate|]. intros W. tt. eapply intdiv_typed; eauto.
   - (* % *)
     ev2 e1 e2. destruct (IHe1 _ eq_refl) as [N1 T1]. destruct (IHe2 _ eq_refl) as [N2 T2]. cbn [nullable]. split; [discriminate|].
@@ -511,7 +511,7 @@ Proof.
     + destruct (eval s r e3) as [y|] eqn:Ey; [|discriminate]. injection EV as <-. apply B. reflexivity.
     + destruct (eval s r e3) as [y|] eqn:Ey; [|discriminate]. injection EV as <-. apply B. reflexivity.
   - (* GREATEST *)
-    ev2 e1 e2. destruct (IHe1 _ eq_refl) as [N1 _]. destruct (IHe2 _ eq_refl) as [N2 _]. cbn [nullable type_of well_typed]. split.
+    ev2 e1 e2. destruct (negb (is_integer (type_of s e1) && is_integer (type_of s e2))); [discriminate|]. destruct (IHe1 _ eq_refl) as [N1 _]. destruct (IHe2 _ eq_refl) as [N2 _]. cbn [nullable type_of well_typed]. split.
     + intros Hn. tt. specialize (N1 ltac:(assumption)). specialize (N2 ltac:(assumption)). destruct va; try discriminate; destruct vb; try discriminate. apply fit_typed in EV. tauto.
     + intros W. tt.
       assert (Ia : is_integer (type_of s e1) = true) by assumption. assert (Ib : is_integer (type_of s e2) = true) by assumption.
@@ -519,7 +519,7 @@ Proof.
       destruct va; try discriminate; try (injection EV as <-; reflexivity); destruct vb; try discriminate; try (injection EV as <-; reflexivity).
       apply fit_typed in EV. tauto.
   - (* LEAST *)
-    ev2 e1 e2. destruct (IHe1 _ eq_refl) as [N1 _]. destruct (IHe2 _ eq_refl) as [N2 _]. cbn [nullable type_of well_typed]. split.
+    ev2 e1 e2. destruct (negb (is_integer (type_of s e1) && is_integer (type_of s e2))); [discriminate|]. destruct (IHe1 _ eq_refl) as [N1 _]. destruct (IHe2 _ eq_refl) as [N2 _]. cbn [nullable type_of well_typed]. split.
     + intros Hn. tt. specialize (N1 ltac:(assumption)). specialize (N2 ltac:(assumption)). destruct va; try discriminate; destruct vb; try discriminate. apply fit_typed in EV. tauto.
     + intros W. tt.
       assert (Ia : is_integer (type_of s e1) = true) by assumption. assert (Ib : is_integer (type_of s e2) = true) by assumption.
@@ -527,7 +527,7 @@ Proof.
       destruct va; try discriminate; try (injection EV as <-; reflexivity); destruct vb; try discriminate; try (injection EV as <-; reflexivity).
       apply fit_typed in EV. tauto.
   - (* CAST *)
-    destruct (eval s r e) as [v|] eqn:Ea; [|discriminate]. cbn [bindr] in EV. destruct (IHe v eq_refl) as [N _].
+    destruct (eval s r e) as [v|] eqn:Ea; [|discriminate]. cbn [bindr] in EV. destruct (bad_unsigned (type_of s e) v); [discriminate|]. destruct (IHe v eq_refl) as [N _].
     destruct (cast_typed _ _ _ EV) as [T Nn]. cbn [nullable type_of]. split; [|auto]. destruct t; try discriminate; auto.
   - (* CONCAT *)
     ev2 e1 e2. destruct (IHe1 _ eq_refl) as [N1 _]. destruct (IHe2 _ eq_refl) as [N2 _]. destruct (concat_sound _ _ _ EV) as [T N].
